@@ -112,3 +112,24 @@ vpp_install_ops([o(P, S, NCs)|Os]) :-
     vpp_install_ops(Os).
 
 vpp_loaded(printer).
+
+% ---------------------------------------------------------------------------
+% C16 helpers. vpn_outcome(Goal, Var, R): R = ok(Var) | failed | ex(Ball)
+vpn_outcome(G, V, R) :-
+    catch(( call(G) -> R = ok(V) ; R = failed ), E, R = ex(E)).
+
+% a spelling (code list) seen by the reader, number_codes/2 and number_chars/2
+vpn_spell(Codes, r(R1, R2, R3)) :-
+    vp_codes_chars(Codes, Chars),
+    % a newline before the end token: the spelling may end in a % comment
+    append(Chars, "\n.", Cs1),
+    vpn_outcome(read_term_from_chars(Cs1, T, []), T, R1),
+    vpn_outcome(number_codes(N2, Codes), N2, R2),
+    vpn_outcome(number_chars(N3, Chars), N3, R3).
+
+% a number converted to text and back
+vpn_number(N, r(N, C1, C2, C3)) :-
+    vpn_outcome(( number_codes(N, Codes), vpn_outcome(number_codes(B1, Codes), B1, RB1) ), t(Codes, RB1), C1),
+    vpn_outcome(( number_chars(N, Chars), vpn_outcome(number_chars(B2, Chars), B2, RB2) ), t(Chars, RB2), C2),
+    vpn_outcome(( write_term_to_chars(N, [quoted(true)], W), append(W, " .", W1),
+                  vpn_outcome(read_term_from_chars(W1, B3, []), B3, RB3) ), t(W, RB3), C3).
